@@ -55,6 +55,9 @@ pub struct MBus {
     pub ints_enabled_line: bool,
     /// false: AY read-back data is treated like a floating-bus read (not modelled)
     pub judge_ay: bool,
+    /// host I/O extender: claim predicate (port & mask == value) and the xor of its read values.
+    /// A claimed port reaches no built-in device; the I/O cycle is timed like any other.
+    pub ext: Option<(Vec<(u16, u16)>, u8)>,
 }
 
 impl MBus {
@@ -77,6 +80,7 @@ impl MBus {
             nmi: false,
             ints_enabled_line: true,
             judge_ay: true,
+            ext: None,
         }
     }
     pub fn frame_t(&self) -> u64 {
@@ -154,6 +158,11 @@ impl RBus for MBus {
     }
     fn input(&mut self, port: u16) -> u8 {
         self.io_cycle(port);
+        if let Some((claims, x)) = &self.ext {
+            if claims.iter().any(|(m, v)| port & m == *v) {
+                return (port as u8) ^ ((port >> 8) as u8) ^ *x;
+            }
+        }
         if port & 1 == 0 {
             self.ula_read_value
         } else if port & 0xC002 == 0xC000 {
@@ -171,6 +180,11 @@ impl RBus for MBus {
     fn output(&mut self, port: u16, val: u8) {
         let t_start = self.t;
         self.io_cycle(port);
+        if let Some((claims, _)) = &self.ext {
+            if claims.iter().any(|(m, v)| port & m == *v) {
+                return;
+            }
+        }
         if port & 1 == 0 {
             self.ula_writes.push(UlaWrite {
                 t_start,
